@@ -84,10 +84,12 @@ type c17File struct {
 	zero    int // countdown for an occasional (0, nil) read
 }
 
-func (f *c17File) MakeReadable() error                  { return nil }
-func (f *c17File) Close() error                         { return nil }
-func (f *c17File) Readdirnames(int) ([]string, error)   { return nil, errors.New("not a dir") }
-func (f *c17File) Stat() (*fs.ExtendedFileInfo, error)  { return &fs.ExtendedFileInfo{Name: "f", Mode: 0o644, Size: int64(len(f.data))}, nil }
+func (f *c17File) MakeReadable() error                { return nil }
+func (f *c17File) Close() error                       { return nil }
+func (f *c17File) Readdirnames(int) ([]string, error) { return nil, errors.New("not a dir") }
+func (f *c17File) Stat() (*fs.ExtendedFileInfo, error) {
+	return &fs.ExtendedFileInfo{Name: "f", Mode: 0o644, Size: int64(len(f.data))}, nil
+}
 func (f *c17File) ToNode(bool, func(string, ...any)) (*data.Node, error) {
 	return &data.Node{Name: "f", Type: data.NodeTypeFile, Mode: 0o644, Size: uint64(len(f.data))}, nil
 }
@@ -300,6 +302,29 @@ type c17Case struct {
 	class string
 	size  int
 	seed  int64
+	data  []byte // pre-built content (aligned cases)
+}
+
+// c17Aligned builds a random file in which a content-defined boundary lies d bytes after a multiple of the
+// fileSaver's read buffer size (d = -1: the cut leaves exactly one byte in the buffer). The library chunker is
+// only used to find such an input; the verdict on it is the same as for every other file.
+func c17Aligned(pol chunker.Pol, seed int64, d int, tok *c17Tokens) []byte {
+	for try := int64(0); try < 40; try++ {
+		r := c17Content("random", 3*c17MiB+int(try)*4099, seed*100+try)
+		cuts := c17LibRun(r, pol, tok).Cuts
+		if len(cuts) < 3 {
+			continue
+		}
+		c := cuts[1]
+		p := ((chunkReadBufSize+d-c)%chunkReadBufSize + chunkReadBufSize) % chunkReadBufSize
+		f := append(c17Content("random", p, seed*100+try+7), r...)
+		for _, x := range c17LibRun(f, pol, tok).Cuts {
+			if x == c+p && x < len(f) {
+				return f
+			}
+		}
+	}
+	return nil
 }
 
 func TestVerif_C17(t *testing.T) {
@@ -318,30 +343,40 @@ func TestVerif_C17(t *testing.T) {
 	var cases []c17Case
 	edge := []int{0, 1, 63, 64, 65, 4096, buf - 1, buf, buf + 1, 2*buf - 1, 2 * buf, 2*buf + 1, chunker.MinSize + 64, 3*buf + 12345}
 	for i, sz := range edge {
-		cases = append(cases, c17Case{"random", sz, seed*1000 + int64(i)})
+		cases = append(cases, c17Case{class: "random", size: sz, seed: seed*1000 + int64(i)})
 	}
 	for _, sz := range []int{0, buf - 1, buf, buf + 1, 3 * buf, 3*buf + 7} {
-		cases = append(cases, c17Case{"zero", sz, 0})
+		cases = append(cases, c17Case{class: "zero", size: sz, seed: 0})
 	}
 	cases = append(cases,
-		c17Case{"random", 8*c17MiB - 1, seed*1000 + 50}, c17Case{"random", 8 * c17MiB, seed*1000 + 51}, c17Case{"random", 8*c17MiB + 1, seed*1000 + 52},
-		c17Case{"const", 8*c17MiB + buf + 1, 0}, c17Case{"period64", 9 * c17MiB, seed*1000 + 53}, c17Case{"period4099", 5*c17MiB + 3, seed*1000 + 54},
-		c17Case{"period512k", 6*c17MiB + 11, seed*1000 + 55}, c17Case{"zero", 9*c17MiB + 5, 0})
+		c17Case{class: "random", size: 8*c17MiB - 1, seed: seed*1000 + 50}, c17Case{class: "random", size: 8 * c17MiB, seed: seed*1000 + 51}, c17Case{class: "random", size: 8*c17MiB + 1, seed: seed*1000 + 52},
+		c17Case{class: "const", size: 8*c17MiB + buf + 1, seed: 0}, c17Case{class: "period64", size: 9 * c17MiB, seed: seed*1000 + 53}, c17Case{class: "period4099", size: 5*c17MiB + 3, seed: seed*1000 + 54},
+		c17Case{class: "period512k", size: 6*c17MiB + 11, seed: seed*1000 + 55}, c17Case{class: "zero", size: 9*c17MiB + 5, seed: 0})
 	nrand := kit.Pick(6, 60)
 	for i := 0; i < nrand; i++ {
-		cases = append(cases, c17Case{"random", 1 + rng.Intn(12*c17MiB), seed*1000 + 100 + int64(i)})
+		cases = append(cases, c17Case{class: "random", size: 1 + rng.Intn(12*c17MiB), seed: seed*1000 + 100 + int64(i)})
 	}
 	if kit.Thorough() {
 		for i := 0; i < 40; i++ {
 			cl := []string{"zero", "const", "period64", "period4099", "period512k"}[i%5]
-			cases = append(cases, c17Case{cl, 1 + rng.Intn(12*c17MiB), seed*1000 + 300 + int64(i)})
+			cases = append(cases, c17Case{class: cl, size: 1 + rng.Intn(12*c17MiB), seed: seed*1000 + 300 + int64(i)})
 		}
 		for d := -2; d <= 2; d++ {
 			for _, m := range []int{1, 2, 4, 16} {
-				cases = append(cases, c17Case{"random", m*buf + d, seed*1000 + 400 + int64(m*10+d)})
+				cases = append(cases, c17Case{class: "random", size: m*buf + d, seed: seed*1000 + 400 + int64(m*10+d)})
 			}
 		}
 	}
+	aligned := 0
+	for _, d := range []int{-2, -1, 0, 1} {
+		for k := 0; k < kit.Pick(1, 4); k++ {
+			if f := c17Aligned(pol, seed*10+int64(k), d, tok); f != nil {
+				cases = append(cases, c17Case{class: fmt.Sprintf("aligned%+d", d), size: len(f), seed: int64(k), data: f})
+				aligned++
+			}
+		}
+	}
+	res.Count("aligned_cases", aligned)
 	patterns := []string{"full", "p7919", "p65537", "bufminus1", "bufplus1", "half", "random", "eofdata", "zeroreads"}
 
 	rig := c17NewRig(t, factory, false)
@@ -362,7 +397,10 @@ func TestVerif_C17(t *testing.T) {
 	}
 	groups := 0
 	for ci, c := range cases {
-		content := c17Content(c.class, c.size, c.seed)
+		content := c.data
+		if content == nil {
+			content = c17Content(c.class, c.size, c.seed)
+		}
 		var runs []c17Run
 		// fresh worker, full reads
 		fresh := c17NewRig(t, factory, false)
@@ -413,7 +451,7 @@ func TestVerif_C17(t *testing.T) {
 		class string
 		size  int
 	}
-	bases := []editCase{{"random", 7*c17MiB + 333}, {"random", 5 * c17MiB}, {"zero", 4*c17MiB + 9}, {"period4099", 6 * c17MiB}}
+	bases := []editCase{{"random", 9*c17MiB + 333}, {"random", 7 * c17MiB}, {"zero", 4*c17MiB + 9}, {"period4099", 6 * c17MiB}}
 	if kit.Thorough() {
 		for i := 0; i < 8; i++ {
 			bases = append(bases, editCase{"random", 4*c17MiB + rng.Intn(7*c17MiB)})
@@ -436,6 +474,10 @@ func TestVerif_C17(t *testing.T) {
 		rng.Shuffle(len(offs), func(i, j int) { offs[i], offs[j] = offs[j], offs[i] })
 		if max := kit.Pick(7, 40); len(offs) > max {
 			offs = offs[:max]
+		}
+		// edits early in the file: many chunks behind them (resynchronisation statistics)
+		for i := 0; i < kit.Pick(5, 12); i++ {
+			offs = append(offs, rng.Intn(b.size/3))
 		}
 		for oi, off := range offs {
 			if off < 0 {
